@@ -164,6 +164,9 @@ class Script:
         stack = []
         altstack = []
         op_lookup = OP_CODE_FUNCTIONS
+        # a witness program is the whole script (ScriptPubKey or p2sh RedeemScript):
+        # its rule applies only once and only when nothing is left to execute
+        witness_program_done = False
         while len(commands) > 0:
             command = commands.pop(0)
             if isinstance(command, int):
@@ -219,9 +222,12 @@ class Script:
                     # hashes match! now add the RedeemScript
                     stream = BytesIO(redeem_script)
                     commands.extend(Script.parse(stream).commands)
+                if witness_program_done or len(commands) > 0:
+                    continue
                 # witness program version 0 rule. if stack commands are:
                 # 0 <20 byte hash> this is p2wpkh
                 if len(stack) == 2 and stack[0] == b"" and len(stack[1]) == 20:
+                    witness_program_done = True
                     h160 = stack.pop()
                     stack.pop()
                     commands.extend(witness.items)
@@ -229,6 +235,7 @@ class Script:
                 # witness program version 0 rule. if stack commands are:
                 # 0 <32 byte hash> this is p2wsh
                 elif len(stack) == 2 and stack[0] == b"" and len(stack[1]) == 32:
+                    witness_program_done = True
                     s256 = stack.pop()
                     stack.pop()
                     commands.extend(witness.items[:-1])
@@ -245,6 +252,7 @@ class Script:
                 # witness program version 1 rule. if stack commands are:
                 # 1 <32 byte hash> this is p2tr
                 elif len(stack) == 2 and stack[0] == b"\x01" and len(stack[1]) == 32:
+                    witness_program_done = True
                     if len(witness) == 0:
                         print("stack in witness v1 empty")
                         return False
